@@ -268,19 +268,23 @@ CHECKS = {
         "category": "other",
         "text": "Narrow claim (see DESIGN.md 5): the headline statement relates two executions and is out of reach "
                 "of single-run function contracts. Checked deductively in the weak sense of FRAME obligations: for "
-                "24 functions on the seeded path the current source is scanned for tagged reads of run-to-run "
+                "26 functions on the seeded path the current source is scanned for tagged reads of run-to-run "
                 "nondeterminism (global numpy/random RNG state, fresh entropy, string-hash-seed dependence via "
                 "hash() or set iteration idioms, directory listing order) and every read outside the function's "
                 "declared frame fails an obligation; declared exceptions carry their justification (integer sets, "
-                "order normalised by reindex; decoy shuffling uses the global RNG by design). Bounded (not proof): "
-                "the same analysis twice in process and in fresh interpreters with different PYTHONHASHSEED, all "
-                "orders of the returned models fed back. One bounded finding (protein level with a target-only "
-                "FASTA depends on the hash seed) is listed in known_findings.json.",
+                "order normalised by reindex; decoy shuffling uses the global RNG by design). One ordinary contract: "
+                "brew#rng_handoff - every model object that exposes an `estimator` attribute receives brew's "
+                "seeded generator, whatever its class. Bounded (not proof): "
+                "the same analysis twice in process and in fresh interpreters with different PYTHONHASHSEED "
+                "(PercolatorModel and a plain Model built without rng), all "
+                "orders of the returned models fed back. The former bounded finding (protein level with a "
+                "target-only FASTA depended on the hash seed) is repaired (fix 0aea7e5).",
         "design_ref": "DESIGN.md 4.C08, 5",
         "note": "syntactic analysis of direct calls in the listed functions only; numpy/sklearn/BLAS numerics and "
                 "thread timing are not modelled; determinism of each modelled function is an assumption of the "
                 "verifier's semantics, not a result",
-        "technique": "frame (reads) obligations by syntactic tagging of library calls; two-session bounded replay",
+        "technique": "frame (reads) obligations by syntactic tagging of library calls; one sidecar block contract; "
+                     "two-session bounded replay",
     },
     "C16": {
         "category": "other",
